@@ -34,6 +34,7 @@ CFG = """INIT Init
 NEXT Next
 CONSTANTS
   Impl = {impl}
+  SeededStrict = {seeded}
   MaxC = 22
   MaxL = 6
   MaxCommits = 2
@@ -47,9 +48,10 @@ CONSTANTS
 CHECK_DEADLOCK FALSE
 """
 ALL_PROPS = ["INVARIANT TypeOK", "INVARIANT NoAlias", "INVARIANT CacheCoherent", "PROPERTY Stable",
-             "PROPERTY AppendOnly", "PROPERTY OnePerCommit"]
+             "PROPERTY AppendOnly", "PROPERTY OnePerCommit", "INVARIANT AlignedHistory", "PROPERTY RejectedAppendsNothing"]
 ACTIONS = ["GetCurrent", "GetHistory", "GetHistoryIdx", "GetLastHistory", "GetHistoryLength", "ComputeLogw",
-           "SetCurrent", "SetCurrentHeld", "SetCurrentBeta", "UpdateCurrent", "Commit", "ComputeResults",
+           "SetCurrent", "SetCurrentHeld", "SetCurrentBeta", "UpdateCurrent", "Commit", "CommitStrict",
+           "CommitStrictRejected", "UnsetCurrent", "ComputeResults",
            "ToDict", "MakeDict", "UpdateFromDict", "FromDict", "SaveState", "LoadState",
            "CallerScribble", "CallerScribbleList", "CallerScribbleResDict"]
 
@@ -58,8 +60,8 @@ def B(x):
     return "TRUE" if x else "FALSE"
 
 
-def cfg(impl, maxops, record, getters, labels, populated=True, tags="{1}", props=None):
-    return CFG.format(impl=B(impl), tags=tags, maxops=maxops, record=B(record), getters=B(getters),
+def cfg(impl, maxops, record, getters, labels, populated=True, tags="{1}", props=None, seeded=False):
+    return CFG.format(impl=B(impl), seeded=B(seeded), tags=tags, maxops=maxops, record=B(record), getters=B(getters),
                       labels=B(labels), populated=B(populated), props="\n".join(ALL_PROPS if props is None else props))
 
 
@@ -94,8 +96,9 @@ def action_coverage(res):
 _LREC = re.compile(r"\[\s*l \|->")
 
 
-def iter_paths(dump_path, want_len=None):
-    """Light reader of a TLC dump: yields only the parsed `path` variable (the states are large)."""
+def iter_paths(dump_path, want_len=None, raw=False):
+    """Light reader of a TLC dump: yields only the `path` variable (the states are large), parsed, or as
+    text when raw (the replay workers parse their own share)."""
     buf = None
     with open(dump_path) as f:
         for ln in f:
@@ -105,13 +108,13 @@ def iter_paths(dump_path, want_len=None):
                 txt = " ".join(buf)
                 buf = None
                 if want_len is None or len(_LREC.findall(txt)) == want_len:
-                    yield tla.parse_value(txt)
+                    yield txt if raw else tla.parse_value(txt)
             elif buf is not None:
                 buf.append(ln.strip())
         if buf is not None:
             txt = " ".join(buf)
             if want_len is None or len(_LREC.findall(txt)) == want_len:
-                yield tla.parse_value(txt)
+                yield txt if raw else tla.parse_value(txt)
 
 
 def sim_paths(res):
@@ -195,6 +198,7 @@ class Replayer:
         self.flagged = {}            # id(obj) -> site at which it was first seen to be internal
         self.keep = []               # flagged objects are kept alive so that their id() is never reused
         self.steps = 0
+        self.light = 0               # steps of an already verified prefix (driven only)
         self.at = 0
         self.scribbles = 0
         self.nontrivial = False
@@ -343,6 +347,17 @@ class Replayer:
                 o.clear()
             self.scribbles += 1
 
+    def snapshot(self):
+        """per-key history lengths, content tags of every batch, get_history_length(), the cache - every real key"""
+        np, sm = self.np, self.sm
+        c = sm._results_dict
+        return {
+            "lengths": {kk: len(v) for kk, v in sm._history.items()},
+            "tags": {kk: tuple(hash(np.asarray(b).tobytes()) for b in v) for kk, v in sm._history.items()},
+            "length": sm.get_history_length(),
+            "cache": None if c is None else (id(c), tuple(sorted((kk, hash(np.asarray(v).tobytes())) for kk, v in c.items()))),
+        }
+
     # ---- caller-side construction
     def new(self, k, t):
         return self.np.full(SHAPE[k], float(t))
@@ -417,9 +432,37 @@ class Replayer:
                     self.hold(dd[kk], "update_current(copy=False)", optin=True)
             if cp:
                 free = [dd["x"], dd["logl"]]
-        elif op == "commit":
+        elif op == "unset_current":
+            sm.set_current(k, None)
+            if k == "beta":
+                sm.set_current("logz", None)
+            self.optin.pop(k, None)
+        elif op == "commit_strict_rejected":
+            # required key None: must raise ValueError and leave histories, their contents and the cache untouched
+            snap = self.snapshot()
+            try:
+                sm.commit_current_to_history(strict=True)
+            except ValueError:
+                pass
+            else:
+                raise Diverged("strict:not-rejected", "commit_current_to_history(strict=True) with beta or logl None did not raise ValueError")
+            if not self.impl_mode:
+                after = self.snapshot()
+                for part, key in (("lengths", "appended"), ("tags", "appended"), ("length", "length"), ("cache", "cache")):
+                    if snap[part] != after[part]:
+                        raise Diverged("rejected-commit:" + key,
+                                       f"a rejected strict commit changed {part}: {_short(snap[part])} -> {_short(after[part])}")
+        elif op in ("commit", "commit_strict"):
             before = {kk: len(v) for kk, v in sm._history.items()}
-            sm.commit_current_to_history()
+            expect = {kk: before[kk] + (1 if sm._current.get(kk) is not None else 0) for kk in before}
+            if op == "commit":
+                sm.commit_current_to_history()
+            else:
+                sm.commit_current_to_history(strict=True)
+            got_len = {kk: len(v) for kk, v in sm._history.items()}
+            if got_len != expect and not self.impl_mode:
+                bad = {kk: (before[kk], got_len[kk], expect[kk]) for kk in expect if got_len[kk] != expect[kk]}
+                raise Diverged("oneper:commit-count", f"{op} must append exactly one batch per non-None key: (before, after, expected) {bad}")
             for kk, v in sm._history.items():
                 if len(v) > before[kk] and isinstance(v[-1], np.ndarray) and isinstance(sm._current.get(kk), np.ndarray) \
                         and np.shares_memory(v[-1], sm._current[kk]):
@@ -477,12 +520,23 @@ class Replayer:
             return self.flagged.get(id(self.d["_history"][l["k"]]), "unknown")
         return self.flagged.get(id(self.res), "compute_results")
 
-    def run(self, path):
+    def run(self, path, verified=None):
+        """verified: set of operation-sequence prefixes that were already executed with every check on and
+        found clean (no sharing, no divergence).  Such a prefix is only driven (the checks on it would repeat
+        verbatim what was done for the sibling behaviour); every step beyond it gets the full treatment."""
         prev = None
+        pkey = ()
         for n, e in enumerate(path):
             self.at = n
             l, want, sh = e["l"], e["v"], e["sh"]
             op = l["op"]
+            pkey = pkey + (lkey(l),)
+            if verified is not None and not self.impl_mode and n < len(path) - 1 and pkey in verified:
+                self.do(l)
+                self.steps += 1
+                self.light += 1
+                prev = want
+                continue
             try:
                 site_pre = self.site_of_scribbled(l) if op in SCRIBBLE_OPS else None
                 free, site = self.do(l)
@@ -537,6 +591,8 @@ class Replayer:
             if norm_view(view2) != norm_view(view):
                 raise Diverged("stable:" + self.blame(free + objs_all),
                                f"step {n} ({fmt(l)}): after overwriting the returned objects the accessors return {diff(view2, view)}")
+            if verified is not None and not self.alias:
+                verified.add(pkey)
         return True
 
     def append_only(self, prev, view, op, n, l):
@@ -561,6 +617,16 @@ class Replayer:
         """objs: the objects that were overwritten (flattened BEFORE overwriting - a cleared dict has no members)"""
         names = [self.flagged[id(x)] for x in objs if id(x) in self.flagged]
         return sorted(set(names))[0] if names else "unknown"
+
+
+def _short(x):
+    if isinstance(x, dict):
+        return {k: (len(v) if isinstance(v, tuple) else v) for k, v in x.items() if v not in (0, ())}
+    return x
+
+
+def lkey(l):
+    return (l["op"], l["k"], l["t"], l["i"], l["cp"], l["w"], l["k2"])
 
 
 def core_failure(msg):
@@ -610,9 +676,10 @@ def replay_chunk(paths):
     from tempest.state_manager import StateManager
 
     tmp = tempfile.mkdtemp(prefix="c17_", dir=os.environ.get("VERIF_SCRATCH") or None)
-    out = {"viol": {}, "count": {}, "behaviours": 0, "steps": 0, "scribbles": 0, "nontrivial": 0, "inconclusive": 0, "explained_by_alias": 0}
+    out = {"viol": {}, "count": {}, "behaviours": 0, "steps": 0, "scribbles": 0, "nontrivial": 0, "inconclusive": 0, "explained_by_alias": 0, "light": 0}
 
     seen_here = set()
+    verified = set()
 
     def note(key, what, path):
         if key not in seen_here:      # count behaviours, not objects
@@ -624,13 +691,15 @@ def replay_chunk(paths):
 
     try:
         for path in paths:
+            if isinstance(path, str):
+                path = tla.parse_value(path)
             seen_here.clear()
             muted = set()
             for _attempt in range(len(OBSERVER_ACCESSORS) + 1):
                 rp = Replayer(StateManager, np, tmp, muted=muted)
                 again = False
                 try:
-                    rp.run(path)
+                    rp.run(path, verified if not muted else None)
                 except Inconclusive:
                     out["inconclusive"] += 1
                 except Diverged as dv:
@@ -650,7 +719,8 @@ def replay_chunk(paths):
                 if not again:
                     break
             out["behaviours"] += 1
-            out["steps"] += rp.steps
+            out["steps"] += rp.steps - rp.light
+            out["light"] += rp.light
             out["scribbles"] += rp.scribbles
             out["nontrivial"] += 1 if rp.nontrivial else 0
     finally:
@@ -661,17 +731,21 @@ def replay_chunk(paths):
 def replay_all(paths, procs=8):
     paths = list(paths)
     if not paths:
-        return {"viol": {}, "count": {}, "behaviours": 0, "steps": 0, "scribbles": 0, "nontrivial": 0, "inconclusive": 0, "explained_by_alias": 0}
-    nchunk = max(1, min(len(paths), procs * 8))
-    chunks = [paths[i::nchunk] for i in range(nchunk)]
+        return {"viol": {}, "count": {}, "behaviours": 0, "steps": 0, "scribbles": 0, "nontrivial": 0, "inconclusive": 0, "explained_by_alias": 0, "light": 0}
+    # contiguous chunks of the lexicographically sorted behaviours: siblings (shared prefixes) go to one worker
+    # (raw texts of behaviours with a common prefix start with the same characters)
+    paths.sort(key=lambda p: p if isinstance(p, str) else repr([lkey(e["l"]) for e in p]))
+    nchunk = max(1, min(len(paths), procs * 4))
+    size = -(-len(paths) // nchunk)
+    chunks = [paths[i:i + size] for i in range(0, len(paths), size)]
     if procs <= 1 or len(paths) < 64:
         parts = [replay_chunk(c) for c in chunks]
     else:
         with mp.get_context("fork").Pool(procs) as pool:
             parts = pool.map(replay_chunk, chunks)
-    tot = {"viol": {}, "count": {}, "behaviours": 0, "steps": 0, "scribbles": 0, "nontrivial": 0, "inconclusive": 0, "explained_by_alias": 0}
+    tot = {"viol": {}, "count": {}, "behaviours": 0, "steps": 0, "scribbles": 0, "nontrivial": 0, "inconclusive": 0, "explained_by_alias": 0, "light": 0}
     for p in parts:
-        for k in ("behaviours", "steps", "scribbles", "nontrivial", "inconclusive", "explained_by_alias"):
+        for k in ("behaviours", "steps", "scribbles", "nontrivial", "inconclusive", "explained_by_alias", "light"):
             tot[k] += p[k]
         for k, n in p["count"].items():
             tot["count"][k] = tot["count"].get(k, 0) + n
@@ -727,6 +801,8 @@ def component_part(ck) -> dict:
     enum_len = 3 if quick else 4              # every operation sequence up to this length is replayed
     nsim, sim_depth = (300, 8) if quick else (2000, 10)   # per simulation worker (2 workers)
     runs, errs = {}, []
+    import time
+    phase, t0 = {}, time.time()
 
     def job(name, **kw):
         try:
@@ -744,11 +820,14 @@ def component_part(ck) -> dict:
     }
     for prop in ("INVARIANT NoAlias", "PROPERTY Stable", "PROPERTY AppendOnly", "INVARIANT CacheCoherent"):
         jobs["impl_" + prop.split()[1]] = dict(cfg=cfg(True, 6, True, False, True, props=[prop]), workers=2)
+    for prop in ("INVARIANT AlignedHistory", "PROPERTY RejectedAppendsNothing"):
+        jobs["seeded_" + prop.split()[1]] = dict(cfg=cfg(False, 6, True, False, True, props=[prop], seeded=True), workers=2)
     ths = [threading.Thread(target=job, args=(n,), kwargs=kw) for n, kw in jobs.items()]
     for t in ths:
         t.start()
     for t in ths:
         t.join()
+    phase["tlc"] = round(time.time() - t0, 1)
     try:
         if errs:
             raise errs[0][1]
@@ -777,13 +856,28 @@ def component_part(ck) -> dict:
             except Exception:
                 follows = False
             cex[prop] = {"trace": [fmt(e["l"]) for e in path], "real_code_follows_code_shaped_spec": follows}
+        # seeded variant of the strict commit (partial append before raising): TLC must refute it
+        for prop in ("AlignedHistory", "RejectedAppendsNothing"):
+            r = runs["seeded_" + prop]
+            if r.status != "violation" or r.violated != prop:
+                raise RuntimeError(f"seeded strict-commit variant does not violate {prop} (status {r.status} {r.violated})")
+            path = r.error_trace[-1][1]["path"]
+            try:
+                Replayer(StateManager, np, tmp, impl_mode=True).run(path)
+                follows = True
+            except Exception:
+                follows = False
+            cex["SeededStrict:" + prop] = {"trace": [fmt(e["l"]) for e in path], "real_code_follows_seeded_spec": follows}
         shutil.rmtree(tmp, ignore_errors=True)
         # ---- binding B: every enumerated / simulated behaviour on the real StateManager
-        paths = list(iter_paths(runs["enum"].dump_path, want_len=enum_len + 1))
+        phase["counterexamples"] = round(time.time() - t0, 1)
+        paths = list(iter_paths(runs["enum"].dump_path, want_len=enum_len + 1, raw=True))
         n_enum = len(paths)
         simp = sim_paths(runs["sim"])
         paths += simp
+        phase["parse"] = round(time.time() - t0, 1)
         tot = replay_all(paths, procs=8 if quick else 12)
+        phase["replay"] = round(time.time() - t0, 1)
     finally:
         for r in runs.values():
             r.cleanup()
@@ -792,6 +886,7 @@ def component_part(ck) -> dict:
         ck.violation(key, f"{what} [{tot['count'][key]} behaviours]", {"ops": ops, "how": "execute ops on a fresh StateManager (checks/c17.py Replayer)"})
     facade = facade_results(ck, cex["Stable"]["trace"])
     for p in paths[:: max(1, len(paths) // 4)][:4]:
+        p = tla.parse_value(p) if isinstance(p, str) else p
         ck.sample({"ops": [fmt(e["l"]) for e in p], "final_view": p[-1]["v"]})
     fullr, deepr = runs["intended_full"], runs["intended_deep"]
     return {
@@ -803,6 +898,7 @@ def component_part(ck) -> dict:
         "enumerated_sequences": n_enum,
         "simulated_behaviours": len(simp),
         "evaluations": tot["steps"],
+        "steps_of_verified_prefixes_driven_only": tot["light"],
         "caller_overwrites": tot["scribbles"],
         "distinct_nontrivial": tot["nontrivial"],
         "inconclusive_optin_not_honoured": tot["inconclusive"],
@@ -817,6 +913,7 @@ def component_part(ck) -> dict:
                    "simulation": [len(simp), sim_depth]},
         "tlc_coverage": {a: list(cov.get(a, (0, 0))) for a in ACTIONS},
         "tlc_coverage_code_shaped": {a: list(cov_impl.get(a, (0, 0))) for a in ACTIONS},
+        "phase_wall_s_cumulative": phase,
         "code_shaped_counterexamples": cex,
         "sampler_results_facade": facade,
     }
